@@ -6,4 +6,5 @@
 //@include boxed_spec.rs
 //@include walk_lemma.rs
 //@include mb2_builder.rs
+//@include mb2_ctors.rs
 fn main() {}
